@@ -261,3 +261,69 @@ Proof.
   intros H. rewrite reqid_unpack_layout by assumption.
   pose proof (reqid_unpack_layout h [] H) as E. rewrite app_nil_r in E. rewrite E. reflexivity.
 Qed.
+
+(* ================= operation histories over a request ID object ================= *)
+
+Definition rq_op_in_range (o : rq_op) : Prop :=
+  match o with
+  | RqVer v => 0 <= v < 8
+  | RqPtype v => 0 <= v < 2
+  | RqShf v => 0 <= v < 2
+  | RqApid v => 0 <= v <= 2047
+  | RqFlags v => 0 <= v < 4
+  | RqCount v => 0 <= v <= 16383
+  | RqPack | RqObserve | RqEqFresh => True
+  end.
+
+Lemma reqid_apply_valid r o : reqid_valid r -> rq_op_in_range o -> reqid_valid (reqid_apply r o).
+Proof.
+  destruct r as [[t s a] [f c] v].
+  unfold reqid_valid, sph_valid, sph_of_reqid.
+  destruct o; cbn; intros; lia.
+Qed.
+
+Lemma reqid_history_valid ops : forall r, reqid_valid r -> Forall rq_op_in_range ops ->
+  reqid_valid (fold_left reqid_apply ops r).
+Proof.
+  induction ops as [|o ops IH]; intros r H F; cbn [fold_left]; [assumption|].
+  inversion F; subst. apply IH; [apply reqid_apply_valid|]; assumption.
+Qed.
+
+(* after ANY sequence of in-range attribute assignments the object packs to the first four header
+   octets of its current values, its integer form is those octets read big-endian, and its hash is
+   that integer: nothing is cached *)
+Theorem reqid_history_forms ops r : reqid_valid r -> Forall rq_op_in_range ops ->
+  let r' := fold_left reqid_apply ops r in
+  reqid_pack r' = Ok (reqid_layout (sph_of_reqid r')) /\
+  reqid_as_u32 r' = be_decode (reqid_layout (sph_of_reqid r')) /\
+  reqid_hash r' = reqid_as_u32 r'.
+Proof.
+  intros H F r'. pose proof (reqid_history_valid ops r H F) as V. fold r' in V.
+  pose proof (reqid_pack_layout _ V) as P. rewrite reqid_from_sph_of_reqid in P.
+  destruct (reqid_as_u32_spec _ V) as [_ U]. rewrite reqid_from_sph_of_reqid in U.
+  destruct (reqid_as_u32_valid r' V) as [_ R].
+  split; [exact P|]. split; [exact U|].
+  unfold reqid_hash. apply py_int_hash_small. exact R.
+Qed.
+
+(* ... and it equals, and hashes like, a freshly constructed request ID with the same values and the
+   request ID decoded from its own octets *)
+Theorem reqid_eq_fresh_valid r : reqid_valid r -> reqid_eq_fresh r = Ok (true, true, true, true).
+Proof.
+  intros V. unfold reqid_eq_fresh.
+  assert (R : 0 <= pid_apid (rq_pid r) <= 2047 /\ 0 <= psc_count (rq_psc r) <= 16383).
+  { destruct r as [[t s a] [f c] v]. unfold reqid_valid, sph_valid, sph_of_reqid in V. cbn in *. lia. }
+  destruct R as [Ra Rc].
+  rewrite pid_new_ok, psc_new_ok by assumption. cbn [bind].
+  replace {| rq_pid := {| pid_ptype := pid_ptype (rq_pid r); pid_shf := pid_shf (rq_pid r);
+                          pid_apid := pid_apid (rq_pid r) |};
+             rq_psc := {| psc_flags := psc_flags (rq_psc r); psc_count := psc_count (rq_psc r) |};
+             rq_ver := rq_ver r |} with r by (destruct r as [[t s a] [f c] v]; reflexivity).
+  pose proof (reqid_pack_layout _ V) as P. rewrite reqid_from_sph_of_reqid in P. rewrite P. cbn [bind].
+  pose proof (reqid_unpack_layout _ [] V) as U. rewrite app_nil_r, reqid_from_sph_of_reqid in U.
+  rewrite U. cbn [bind]. rewrite reqid_eqb_refl, Z.eqb_refl. reflexivity.
+Qed.
+
+Corollary reqid_history_eq_fresh ops r : reqid_valid r -> Forall rq_op_in_range ops ->
+  reqid_eq_fresh (fold_left reqid_apply ops r) = Ok (true, true, true, true).
+Proof. intros H F. apply reqid_eq_fresh_valid, reqid_history_valid; assumption. Qed.
